@@ -44,13 +44,13 @@ DEVIATIONS = (("DevStale", "FmtMol2", 2, 1, "StylesQ"), ("DevRepeat", "FmtMol2",
               ("DevNoCount", "FmtMol2", 1, 1, "StylesQ"), ("DevAsFound", "FmtMol2", 2, 2, "StylesQ"),
               ("DevSpin", "FmtMol2", 1, 1, "StylesQ"), ("DevXyzCount", "FmtXyz", 1, 1, "StylesQ"),
               ("DevXyzEof", "FmtXyz", 1, 1, "StylesQ"), ("DevCut", "FmtBoth", 1, 1, "StylesQ"),
-              ("DevOptCut", "FmtMol2", 1, 1, "StylesUnity"))
+              ("DevOptCut", "FmtMol2", 1, 1, "StylesUnity"), ("DevNoQ", "FmtMol2", 1, 1, "StylesQ"))
 TRACE_CFG = dict(spec="TraceSpec", constants={"Deviations": "<- DevNone", "Src": "<- TraceSrc"})
 
 
-def mc_cfg(dev="DevNone", fmts="FmtBoth", styles="StylesQ", mols=2, atoms=2, skip="SkipNone"):
+def mc_cfg(dev="DevNone", fmts="FmtBoth", styles="StylesQ", mols=2, atoms=2, skip="SkipNone", classes="ClsMol"):
     return dict(spec="MCSpec", constants={"Deviations": f"<- {dev}", "Src": "<- Ident", "Fmts": f"<- {fmts}", "Styles": f"<- {styles}",
-                                          "MaxMols": mols, "MaxAtoms": atoms, "SkipShapes": f"<- {skip}"},
+                                          "MaxMols": mols, "MaxAtoms": atoms, "SkipShapes": f"<- {skip}", "Classes": f"<- {classes}"},
                 invariants=INV, view="View")
 
 
@@ -91,7 +91,7 @@ def seeded(tier, seed):
     rnd = random.Random(seed * 7919 + 10)
     out = []
     for fmt in ("mol2", "xyz"):
-        for k in range(6 if tier == "quick" else 120):
+        for k in range(4 if tier == "quick" else 120):
             desc, text = X.random_file(fmt, rnd)
             out.append({"sid": f"rand:{fmt}:{k}", "kind": "seeded", "fmt": fmt, "text": text, "desc": desc})
     return out
@@ -102,14 +102,14 @@ def mc_family(edges):
     files = {}
     for e in edges:
         shapes = e["shapes"] if isinstance(e["shapes"], list) else []
-        key = (e["fmt"], e["style"], json.dumps(shapes))
-        f = files.setdefault(key, {"fmt": e["fmt"], "style": e["style"], "shapes": shapes, "dam": []})
+        key = (e["fmt"], e["style"], json.dumps(shapes), e.get("cls", "Molecule"))
+        f = files.setdefault(key, {"fmt": e["fmt"], "style": e["style"], "shapes": shapes, "dam": [], "cls": key[3]})
         f["dam"].append(e)
     out = []
-    for (fmt, style, shs), f in sorted(files.items()):
+    for (fmt, style, shs, cls), f in sorted(files.items()):
         text = X.render(fmt, style, f["shapes"])
-        sid = f"mc:{fmt}:{style}:" + ",".join(f"{s['na']}.{s['nb']}" for s in f["shapes"])
-        src = {"sid": sid, "kind": "tlc", "fmt": fmt, "text": text, "desc": {"style": style, "shapes": f["shapes"]},
+        sid = f"mc:{fmt}:{style}:" + ",".join(f"{s['na']}.{s['nb']}" for s in f["shapes"]) + ("" if cls == "Molecule" else ":" + cls)
+        src = {"sid": sid, "kind": "tlc", "fmt": fmt, "text": text, "desc": {"style": style, "shapes": f["shapes"]}, "classes": (cls,),
                "recipes": [], "predicted": {}}
         dm = X.Damager(fmt, text)
         for e in f["dam"]:
@@ -125,6 +125,8 @@ def mc_family(edges):
                     rec = [["tok", i, j, "?!" + toks[j]]]
                 elif v == "other":
                     rec = [["set", i, "@<TRIPOS>" + lx["t"] + "X"]]
+                elif v == "noq":
+                    rec = [["trunc", i, 6]]
                 elif v in ("na+1", "na-1", "nb+1", "nb-1"):
                     j = 0 if v[:2] == "na" else 1
                     rec = [["tok", i, j, str(lx["c"][j] + (1 if v[2] == "+" else -1))]]
@@ -133,6 +135,7 @@ def mc_family(edges):
                 _, ops = dm.apply(rec)
                 want, got = e["line"], ops[-1]["line"]
                 same = {"junk": got["k"] == "text" or got.get("ok") is False,
+                        "noq": got["k"] == "atom" and got["ok"] and not got["hq"],
                         "other": got["k"] == "tag" and want["k"] == "tag" and got["t"] not in ("MOLECULE", "ATOM", "BOND")
                         }.get(v, got["k"] == "ints" and got.get("c") == want.get("c"))
                 if not same:
@@ -152,9 +155,10 @@ def recipes_for(src, tier, rnd):
         return dm, rec + dm.byte_cuts()
     if not big:
         idx = list(range(1, n + 1))
-        rec += dm.line_cuts() + dm.byte_cuts() + dm.del_dup(idx) + dm.count_changes()
+        didx = idx if tier == "thorough" or n <= 50 else sorted(set(idx[:25]) | set(rnd.sample(idx[25:], 25)))
+        rec += dm.line_cuts() + dm.byte_cuts() + dm.del_dup(didx) + dm.count_changes()
         rec += dm.tok_corruptions(idx, rnd, per_line=None if tier == "thorough" else 1)
-        rec += [dm.random_combo(rnd) for _ in range(30 if tier == "quick" else 400)]
+        rec += [dm.random_combo(rnd) for _ in range(12 if tier == "quick" else 400)]
     else:
         heavy = n > 3000
         if tier == "quick":
@@ -172,12 +176,12 @@ def recipes_for(src, tier, rnd):
 # trace construction and validation
 # --------------------------------------------------------------------------------------------------------------
 def good_event(src, outcome):
-    return {"ev": "good", "fmt": src["fmt"], "lines": X.lex_text(src["fmt"], src["text"]), "out": outcome["out"],
-            "mols": outcome["mols"]}
+    return {"ev": "good", "fmt": src["fmt"], "cls": src.get("cls", "Molecule"), "lines": X.lex_text(src["fmt"], src["text"]),
+            "out": outcome["out"], "mols": outcome["mols"]}
 
 
-def dam_event(ops, outcome):
-    return {"ev": "dam", "d": ops, "out": outcome["out"], "mols": outcome["mols"]}
+def dam_event(ops, outcome, via="loads_all"):
+    return {"ev": "dam", "via": via, "d": ops, "out": outcome["out"], "mols": outcome["mols"]}
 
 
 def validate_all(items_by_src, goods, *, par=WORKERS, tag="c10tr"):
@@ -221,19 +225,20 @@ def validate_all(items_by_src, goods, *, par=WORKERS, tag="c10tr"):
 
 
 def wellformed_pass(cands):
-    """cands: {key: (fmt, damaged text)} -> set of keys whose damaged text is, by itself, a well-formed text that the real
+    """cands: {key: (fmt, damaged text, class)} -> set of keys whose damaged text is, by itself, a well-formed text that the real
     reader read exactly as the required-design model of Readers.tla reads it (the text is submitted as the 'good' event of
     its own trace: model run + agreement decided by TLC)."""
     if not cands:
         return set()
     keys = list(cands)
-    res = R.run_cases([(i, cands[k][0], cands[k][1], True) for i, k in enumerate(keys)], workers=WORKERS)
+    res = R.run_cases([(i, cands[k][0], cands[k][1], True, cands[k][2], R.PRIMARY[cands[k][2]]) for i, k in enumerate(keys)],
+                      workers=WORKERS)
     traces = []
     for i, k in enumerate(keys):
         o = res[i]
         if o["out"] == "ret" and o["mols"]:
-            traces.append({"tid": f"W{i}", "ev": [{"ev": "good", "fmt": cands[k][0], "lines": X.lex_text(*cands[k]),
-                                                   "out": "ret", "mols": o["mols"]}]})
+            traces.append({"tid": f"W{i}", "ev": [{"ev": "good", "fmt": cands[k][0], "cls": cands[k][2],
+                                                   "lines": X.lex_text(cands[k][0], cands[k][1]), "out": "ret", "mols": o["mols"]}]})
     if not traces:
         return set()
     verdicts, _ = T.validate("ReadersTrace", traces, TRACE_CFG, chunk=max(1, (len(traces) + WORKERS - 1) // WORKERS),
@@ -286,7 +291,8 @@ def is_known_cut(src, dm, recipe, ops, good, dam_out):
 
 def is_known_optcut(src, dm, recipe, ops, good, dam_out):
     """signature of KNOWN['C10-optional-block-cut']"""
-    if dm.fmt != "mol2" or len(recipe) != 1 or recipe[0][0] != "cut" or dam_out["out"] != "ret":
+    # (the cut may also fall inside the last kept record, behind the columns the consuming class reads: "cutmid")
+    if dm.fmt != "mol2" or len(recipe) != 1 or recipe[0][0] not in ("cut", "cutmid") or dam_out["out"] != "ret":
         return False
     n, L = recipe[0][1], dm.L
     if not (0 < n < len(L)) or L[n]["k"] != "tag" or L[n]["t"] not in ("UNITY_ATOM_ATTR", "UNITY_BOND_ATTR"):
@@ -314,6 +320,13 @@ def damage_class(dm, recipe, ops):
         return f"cut after {k}" + (f"({dm.L[r[1] - 1].get('t')})" if k == "tag" else "") + f" before {nxt}"
     if r[0] == "cutbyte":
         return f"cutbyte in {dm.L[dm.nlast - 1]['k']} -> {ops[-1]['line']['k']}"
+    if r[0] in ("droptok", "trunc", "cutmid", "bset", "bins"):
+        i, new = ops[-1]["i"], ops[-1]["line"]
+        k = dm.L[i - 1]["k"]
+        res = new["k"] + ("(no charge column)" if new["k"] == "atom" and k == "atom" and dm.L[i - 1].get("hq") and not new.get("hq") else "")
+        kind = {"bset": "byte overwritten in", "bins": "byte inserted in", "droptok": "token lost in", "trunc": "line cut short in",
+                "cutmid": "text cut inside"}[r[0]]
+        return f"{kind} {k} -> {res}"
     k = dm.L[r[1] - 1]["k"]
     if r[0] in ("tok", "set"):
         return f"{r[0]} {k}" + (f"({dm.L[r[1] - 1].get('t')})" if k == "tag" else "") + f" -> {ops[-1]['line']['k']}"
@@ -327,15 +340,17 @@ def model_part(ev, tier):
     nm = 3 if big else 2
     skip = "SkipNone"                      # ("SkipQ" drops the (2 atoms, 0 bonds) mol2 shape if the quick tier must shrink)
     jobs = {
-        "mc": lambda: model_check(ev, "MCReaders", mc_cfg(mols=nm, styles="StylesQ", skip=skip),
-                                  role=f"Readers: every damage of every generated mol2/xyz file with <= {nm} molecules, <= 2 atoms, <= 1 bond",
+        "mc": lambda: model_check(ev, "MCReaders", mc_cfg(mols=nm, styles="StylesQ", skip=skip, classes="ClsBoth" if big else "ClsMol"),
+                                  role=f"Readers: every damage of every generated mol2/xyz file with <= {nm} molecules, <= 2 atoms, <= 1 bond, "
+                                       + ("consumed as Molecule and as Structure" if big else "consumed as Molecule (Structure: second run)"),
                                   tag="c10mc", workers=2, require_actions=ACT_MAIN),
-        "mcs": lambda: model_check(ev, "MCReaders", mc_cfg(fmts="FmtMol2", styles="StylesU", mols=2 if big else 1),
+        "mcs": lambda: model_check(ev, "MCReaders", mc_cfg(fmts="FmtMol2", styles="StylesU", mols=2 if big else 1, classes="ClsBoth"),
                                    role="Readers: header styles '****'+comment, UNITY_ATOM_ATTR block, unknown SUBSTRUCTURE block",
                                    tag="c10mcs", workers=1, require_actions=ACT_STYLES),
         "emit": lambda: emit_graph(ev, "MCReaders", mc_cfg(dev="DevAsFound", mols=nm, styles="StylesQ", skip=skip),
                                    role="Readers with the deviations of the pinned tree: one line per (file, damage)", tag="c10emit"),
-        "emits": lambda: emit_graph(ev, "MCReaders", mc_cfg(dev="DevAsFound", fmts="FmtMol2", styles="StylesU", mols=2 if big else 1),
+        "emits": lambda: emit_graph(ev, "MCReaders", mc_cfg(dev="DevAsFound", fmts="FmtMol2", styles="StylesU", mols=2 if big else 1,
+                                                            classes="ClsBoth"),
                                     role="same, header styles", tag="c10emits"),
     }
     for name, fmts, mols, atoms, styles in DEVIATIONS:
@@ -348,6 +363,48 @@ def model_part(ev, tier):
         res = {k: f.result() for k, f in futs.items()}
     ev.set(deviations_caught={k[4:]: r.violated for k, r in res.items() if k.startswith("dev:")})
     return res["emit"] + res["emits"]
+
+
+CLASSES = ("Molecule", "Structure", "ConformerEnsemble")
+
+
+def unit_plan(src, cls, tier, rnd):
+    """the damages of one (text, consuming class): [(recipe, via)]; via = entry point"""
+    dm = X.Damager(src["fmt"], src["text"])
+    prim = R.PRIMARY[cls]
+    n = len(dm.lines)
+    out = []
+    if src["kind"] == "tlc":
+        _, recs = recipes_for(src, tier, rnd)
+        return dm, [(r, prim) for r in recs]
+    if cls == "Molecule":
+        _, recs = recipes_for(src, tier, rnd)
+        out += [(r, prim) for r in recs]
+    elif tier == "thorough" and n <= 400:
+        out += [(r, prim) for r in dm.line_cuts() + dm.byte_cuts() + dm.count_changes()]
+    # token level: every token of a record line lost, the line / the text cut short after each token
+    rl = dm.record_lines()
+    nrec = (6 if n <= 400 else 3) if tier == "quick" else (60 if n <= 400 else 12)
+    if len(rl) > nrec:
+        kinds = {}
+        for i in rl:
+            kinds.setdefault(dm.L[i - 1]["k"], []).append(i)
+        pick = {v[0] for v in kinds.values()} | {v[-1] for v in kinds.values()}
+        rest = [i for i in rl if i not in pick]
+        pick |= set(rnd.sample(rest, max(0, min(len(rest), nrec - len(pick)))))
+        rl = sorted(pick)
+    out += [(r, prim) for r in dm.token_level(rl)]
+    # every other entry point of the class: the undamaged text, a few text damages, byte-level damage of the FILE
+    vias = [v for v in R.VIAS[cls] if v != prim]
+    few = (rnd.sample(dm.line_cuts(), min(2, n)) + rnd.sample(dm.token_level(rl[:1] + rl[-1:], cutmid=False), 2)) if n <= 3000 else []
+    nb = (3 if tier == "quick" else 12) if n <= 3000 else 1
+    byte = dm.byte_level(nb, rnd)
+    for v in vias:
+        out.append(([], v))
+        out += [(r, v) for r in few]
+        if v in R.PATH_VIAS:
+            out += [(r, v) for r in byte]
+    return dm, out
 
 
 def run(tier, seed, replay_path):
@@ -369,20 +426,28 @@ def run(tier, seed, replay_path):
     t1 = time.time()
     cases, good_cases, plan = [], [], {}
     for s in sources:
-        dm, recs = recipes_for(s, tier, rnd)
-        seen, lst = set(), []
-        good_cases.append(((s["sid"], "good"), s["fmt"], s["text"], True))
-        for rec in recs:
-            key = json.dumps(rec)
-            if key in seen:
+        for cls in s.get("classes", CLASSES):
+            if cls == "ConformerEnsemble" and s["kind"] == "seeded":
+                continue                                     # an ensemble needs the same atoms in every record
+            if cls != "Molecule" and tier == "quick" and len(s["text"]) > 100000:
                 continue
-            seen.add(key)
-            text, ops = dm.apply(rec)
-            lst.append((rec, text, ops))
-            cases.append(((s["sid"], key), s["fmt"], text, False))
-        plan[s["sid"]] = (s, dm, lst)
-    # order by cost so that chunks are even; chunk by bytes
-    results = {}
+            uid = f"{s['sid']}|{cls}"
+            u = dict(s, cls=cls, uid=uid)
+            dm, recs = unit_plan(u, cls, tier, rnd)
+            seen, lst = set(), []
+            good_cases.append(((uid, "good"), s["fmt"], s["text"], True, cls, R.PRIMARY[cls]))
+            for rec, via in recs:
+                key = json.dumps([rec, via])
+                if key in seen:
+                    continue
+                seen.add(key)
+                data, ops = dm.apply(rec) if rec else (s["text"], [])
+                if isinstance(data, bytes) and via not in R.PATH_VIAS:
+                    continue
+                lst.append((rec, data, ops, via, key))
+                cases.append(((uid, key), s["fmt"], data, False, cls, via))
+            plan[uid] = (u, dm, lst)
+    results = R.run_cases(good_cases, workers=WORKERS, chunk=max(1, len(good_cases) // (WORKERS * 2)))
     cases.sort(key=lambda c: -len(c[2]))
     chunks, cur, size = [], [], 0
     for c in cases:
@@ -391,27 +456,29 @@ def run(tier, seed, replay_path):
             chunks.append(cur); cur, size = [], 0
     if cur:
         chunks.append(cur)
-    # the undamaged texts first (nothing can spin there), then the damaged ones
-    results = R.run_cases(good_cases, workers=WORKERS, chunk=max(1, len(good_cases) // (WORKERS * 2)))
     results.update(R.run_cases(cases, workers=WORKERS, chunks=chunks))
     t_real = time.time() - t1
     # ---- traces ----------------------------------------------------------------------------------------
     t2 = time.time()
-    goods, items, outcomes, nskipped = {}, {}, Counter(), 0
-    for sid, (s, dm, lst) in list(plan.items()):
-        g = results[(sid, "good")]
+    goods, items, outcomes, nskipped, ndomain = {}, {}, Counter(), 0, 0
+    for uid, (u, dm, lst) in list(plan.items()):
+        g = results[(uid, "good")]
         if g["out"] == "skipped":
             nskipped += 1 + len(lst)
             continue
         if g["out"] != "ret" or not g["mols"]:
-            skipped.append(f"{sid}: the real reader does not return molecules for the UNDAMAGED text ({g.get('exc', g['out'])}); "
-                           "outside the domain of C10")
+            ndomain += 1
+            if u["cls"] == "Molecule" or u["kind"] == "bundled":
+                skipped.append(f"{uid}: the real reader does not return molecules for the UNDAMAGED text "
+                               f"({g.get('exc', g['out'])}); outside the domain of C10")
             continue
-        goods[sid] = good_event(s, g)
-        plan[sid] = (s, dm, [x for x in lst if results[(sid, json.dumps(x[0]))]["out"] != "skipped"])
-        nskipped += len(lst) - len(plan[sid][2])
-        items[sid] = [((sid, json.dumps(rec)), dam_event(ops, results[(sid, json.dumps(rec))])) for rec, text, ops in plan[sid][2]]
-    if len(goods) < 0.6 * len(plan) or not any(plan[sid][0]["kind"] == "bundled" for sid in goods):
+        goods[uid] = good_event(u, g)
+        plan[uid] = (u, dm, [x for x in lst if results[(uid, x[4])]["out"] != "skipped"])
+        nskipped += len(lst) - len(plan[uid][2])
+        items[uid] = [((uid, key), dam_event(ops, results[(uid, key)], via)) for rec, data, ops, via, key in plan[uid][2]]
+    nmol = sum(1 for uid in plan if plan[uid][0]["cls"] == "Molecule")
+    if sum(1 for uid in goods if plan[uid][0]["cls"] == "Molecule") < 0.6 * nmol or \
+            not any(plan[uid][0]["kind"] == "bundled" for uid in goods):
         raise tlc.MachineryError(f"only {len(goods)} of {len(plan)} undamaged texts are read by the real reader: nothing to judge "
                                  f"({skipped[:3]})")
     verdict, tres, ntr = validate_all(items, goods)
@@ -421,83 +488,101 @@ def run(tier, seed, replay_path):
         ev.cov["states"] += r.distinct
     ev.cov["tlc_runs"].append({"role": "trace validation (ReadersTrace)", "batches": len(tres), "traces": ntr,
                                "generated": sum(r.generated for r in tres), "wall_s": round(t_trace, 1)})
+    # an entry point that does not even return the undamaged molecules for the undamaged text is not judged here (C09)
+    offvia = set()
+    for uid in goods:
+        for rec, data, ops, via, key in plan[uid][2]:
+            if not rec and verdict[(uid, key)] != "ACCEPT":
+                offvia.add((uid, via))
+    for uid, via in sorted(offvia)[:5]:
+        rep.note(f"entry point {via} of {uid} does not reproduce the undamaged molecules for the undamaged text: not judged by C10")
     # ---- second pass: which of the rejected outcomes belong to a damaged text that is itself well-formed? ----
     stuck = {}
-    for sid in goods:
-        s, dm, lst = plan[sid]
-        for rec, text, ops in lst:
-            if verdict[(sid, json.dumps(rec))] == "STUCK" and results[(sid, json.dumps(rec))]["out"] == "ret":
-                stuck[(sid, json.dumps(rec))] = (s["fmt"], text)
+    for uid in goods:
+        u, dm, lst = plan[uid]
+        for rec, data, ops, via, key in lst:
+            if rec and (uid, via) not in offvia and verdict[(uid, key)] == "STUCK" and results[(uid, key)]["out"] == "ret" \
+                    and isinstance(data, str):
+                stuck[(uid, key)] = (u["fmt"], data, u["cls"])
     wellformed = wellformed_pass(stuck)
     # ---- verdicts --------------------------------------------------------------------------------------
-    texts, nviol, nknown, per_kind, per_class = set(), 0, 0, Counter(), Counter()
+    texts, nviol, nknown, per_kind, per_class, per_entry = set(), 0, 0, Counter(), Counter(), Counter()
     reported, predicted, reproduced, unpredicted = set(), 0, 0, 0
     samples, examples, kexamples, notrep, unpred = [], [], [], [], []
-    for sid in goods:
-        s, dm, lst = plan[sid]
-        g = results[(sid, "good")]
-        for rec, text, ops in lst:
-            key = (sid, json.dumps(rec))
-            o, v = results[key], verdict[key]
-            if text != s["text"]:
-                texts.add(X.sha(s["fmt"] + text))
-            cls = "rejected" if o["out"] == "exc" else "TIMEOUT" if o["out"] == "timeout" else ("returned " + ("all" if len(o["mols"]) == len(g["mols"]) else "a prefix")
-                                                       if v == "ACCEPT" else "contract broken (violations + known findings)")
-            outcomes[cls] += 1
-            per_kind[s["kind"]] += 1
-            pred_ok = s.get("predicted", {}).get(json.dumps(rec))
+    for uid in goods:
+        u, dm, lst = plan[uid]
+        g = results[(uid, "good")]
+        for rec, data, ops, via, key in lst:
+            if (uid, via) in offvia:
+                continue
+            o, v = results[(uid, key)], verdict[(uid, key)]
+            if data != u["text"]:
+                texts.add(X.sha(u["fmt"] + (data.hex() if isinstance(data, bytes) else data)))
+            cls_o = "rejected" if o["out"] == "exc" else "TIMEOUT" if o["out"] == "timeout" else \
+                ("returned " + ("all" if len(o["mols"]) == len(g["mols"]) else "a prefix") if v == "ACCEPT"
+                 else "contract broken (violations + known findings)")
+            outcomes[cls_o] += 1
+            per_kind[u["kind"]] += 1
+            per_entry[f"{u['cls']}.{via}"] += 1
+            pred_ok = u.get("predicted", {}).get(json.dumps(rec)) if rec else None
             if pred_ok is False:
                 predicted += 1
                 reproduced += v == "STUCK"
                 if v != "STUCK" and len(notrep) < 8:
-                    notrep.append({"source": sid, "recipe": rec, "real": o.get("exc", o["out"])})
+                    notrep.append({"source": uid, "recipe": rec, "real": o.get("exc", o["out"])})
             elif pred_ok is True and v == "STUCK":
                 unpredicted += 1
                 if len(unpred) < 8:
-                    unpred.append({"source": sid, "recipe": rec, "returned": [(m["na"], m["nb"]) for m in o["mols"]]})
-            if len(samples) < 3 and v == "ACCEPT" and o["out"] == "ret" and rec[0][0] in ("dup", "cut") and s["kind"] != "tlc":
-                samples.append({"source": sid, "recipe": rec, "outcome": {"out": o["out"], "mols": o["mols"][:2]}, "verdict": v})
+                    unpred.append({"source": uid, "recipe": rec, "returned": [(m["na"], m["nb"]) for m in o["mols"]]})
+            if len(samples) < 3 and v == "ACCEPT" and o["out"] == "ret" and rec and rec[0][0] in ("dup", "cut", "droptok") \
+                    and u["kind"] != "tlc":
+                samples.append({"source": uid, "via": via, "recipe": rec, "outcome": {"out": o["out"], "mols": o["mols"][:2]},
+                                "verdict": v})
             if v == "ACCEPT":
                 continue
             dc = damage_class(dm, rec, ops)
-            kid = known_id(s, dm, rec, ops, g, o, key in wellformed)
+            kid = known_id(u, dm, rec, ops, g, o, (uid, key) in wellformed)
             if kid:
                 nknown += 1
-                per_class["KNOWN " + s["fmt"] + " " + dc] += 1
+                per_class["KNOWN " + u["fmt"] + " " + dc] += 1
                 rep.known(kid, KNOWN[kid]["what"])
-                if sum(1 for x in kexamples if x["id"] == kid and x["fmt"] == s["fmt"]) < 2:
-                    kexamples.append({"id": kid, "fmt": s["fmt"], "source": sid, "recipe": rec, "class": dc,
-                                      "damaged_text_tail": text[-160:]})
+                if sum(1 for x in kexamples if x["id"] == kid and x["fmt"] == u["fmt"]) < 2:
+                    kexamples.append({"id": kid, "fmt": u["fmt"], "source": uid, "recipe": rec, "class": dc,
+                                      "damaged_text_tail": data[-160:]})
                 continue
             nviol += 1
-            per_class[s["fmt"] + " " + dc] += 1
-            if sum(1 for x in examples if x["class"] == dc and x["predicted_by_asfound_model"] == (pred_ok is False)) < 3:
-                examples.append({"source": sid, "class": dc, "recipe": rec, "predicted_by_asfound_model": pred_ok is False,
+            label = f"{u['fmt']} {u['cls']}.{via} {dc}"
+            per_class[label] += 1
+            if sum(1 for x in examples if x["class"] == label) < 2:
+                examples.append({"source": uid, "class": label, "recipe": rec, "predicted_by_asfound_model": pred_ok is False,
                                  "returned": [(m["na"], m["nb"]) for m in o["mols"]]})
-            sig = (s["fmt"], dc, o["out"])
-            if sig in reported or len(reported) >= 10:
+            sig = (u["fmt"], u["cls"], via in R.PATH_VIAS, dc, o["out"])
+            if sig in reported or len(reported) >= 12:
                 continue
             reported.add(sig)
-            why = diagnose(s, g, o, ops)
-            rep.violation("damaged-text", {"fmt": s["fmt"], "source": sid, "desc": s["desc"], "orig_text": s["text"],
-                                           "recipe": rec, "damaged_text": text, "ops": ops, "outcome": o,
-                                           "undamaged": [{k: m[k] for k in ("na", "nc", "nb", "dig")} for m in g["mols"]],
-                                           "class": dc, "why": why},
-                          what=f"{sid} [{dc}] {rec}: {why}")
+            why = diagnose(u, g, o, ops)
+            payload = {"fmt": u["fmt"], "cls": u["cls"], "via": via, "source": uid, "desc": u["desc"], "orig_text": u["text"],
+                       "recipe": rec, "ops": ops, "outcome": o,
+                       "undamaged": [{k: m[k] for k in ("na", "nc", "nb", "dig")} for m in g["mols"]], "class": dc, "why": why}
+            payload["damaged_hex" if isinstance(data, bytes) else "damaged_text"] = data.hex() if isinstance(data, bytes) else data
+            rep.violation("damaged-text", payload, what=f"{uid} via {via} [{dc}] {rec}: {why}")
     if nskipped:
         rep.note(f"{nskipped} cases were NOT run: the reader timed out on {R.MAX_TIMEOUTS}+ inputs and the run was cut short")
         if not rep.viol:
             raise tlc.MachineryError("cases were skipped although no timeout was reported")
     if nviol > len(rep.viol):
-        rep.note(f"{nviol} damaged texts violate the contract in {len(per_class)} classes; one replay file per class (max 10)")
+        rep.note(f"{nviol} damaged texts violate the contract in {len(per_class)} classes; one replay file per class (max 12)")
     nd = sum(len(v) for v in items.values())
     ev.count(evaluations=nd, distinct_nontrivial=len(texts), traces=ntr)
-    ev.set(rule="one case = one damaged text handed to the real Molecule.loads_all_mol2 / loads_all_xyz under a 5 s limit and "
-                "judged by TLC (ReadersTrace: exception, or complete molecules with the counts the damaged text declares and "
-                "the content of the undamaged molecule of the same index); distinct_nontrivial = distinct damaged texts "
-                "that differ from their undamaged text",
-           sources={"total": len(goods), **Counter(plan[s][0]["kind"] for s in goods)}, cases_by_source=dict(per_kind),
-           outcomes=dict(outcomes), violation_classes=dict(per_class), violation_examples=examples, known_hits=nknown, known_examples=kexamples, wellformed_damaged_texts_among_rejected=len(wellformed), skipped=skipped,
+    ev.set(rule="one case = one damaged text (or damaged file) handed to one real entry point of one consuming class under a 5 s "
+                "limit and judged by TLC (ReadersTrace: exception, or complete molecules with the counts the damaged text declares "
+                "and the content of the undamaged molecule of the same index, as that class reads it); distinct_nontrivial = "
+                "distinct damaged texts / byte sequences that differ from their undamaged text",
+           sources={"total": len(goods), **Counter(plan[u][0]["kind"] + "/" + plan[u][0]["cls"] for u in goods)},
+           cases_by_source=dict(per_kind), cases_by_entry_point=dict(per_entry),
+           outcomes=dict(outcomes), violation_classes=dict(per_class), violation_examples=examples, known_hits=nknown,
+           known_examples=kexamples, wellformed_damaged_texts_among_rejected=len(wellformed), skipped=skipped,
+           texts_not_loadable_as_that_class=ndomain,
            asfound_model={"damages_predicted_to_break_the_contract": predicted, "of_those_the_real_reader_breaks": reproduced,
                           "real_violations_on_tlc_files_not_predicted": unpredicted, "predicted_but_rejected_by_the_real_reader": notrep,
                           "not_predicted_examples": unpred},
@@ -505,13 +590,18 @@ def run(tier, seed, replay_path):
            exhaustive=False)
     ev.add_samples(samples)
     ev.assumptions += [
-        "lexical reading of a text line (kind, integers, micro-Angstrom / 1e-4 e values) by the harness's own tokenizer",
+        "lexical reading of a text line (kind, integers, micro-Angstrom / 1e-4 e values) by the harness's own tokenizer; a byte "
+        "that is not valid UTF-8 makes its token unreadable",
         "content of a returned molecule = name, per atom element/label/type/geometry/formal charge/attributes, coordinates "
-        "(micro-Angstrom), charges (1e-4 e), per bond endpoints/type/attributes, compared through a digest",
+        "(micro-Angstrom), charges (1e-4 e, for the classes that carry them), per bond endpoints/type/attributes, compared "
+        "through a digest; the conformers of a ConformerEnsemble count as its molecules",
         "token corruption = prefixing '?!' to a token with a closed vocabulary (numbers, atom/bond types, element symbols, "
-        "@<TRIPOS> tags) or renaming a tag to an unknown block; free-text fields (names, labels, comments) are not damaged",
-        "files over 400 lines: sampled line truncations / deletions (all byte offsets of the last record are still covered)",
-        "the reader is observed through Molecule.loads_all_mol2 / loads_all_xyz only",
+        "@<TRIPOS> tags) or renaming a tag to an unknown block; free-text fields (names, labels, comments) are not damaged "
+        "except by invalid bytes",
+        "files over 400 lines: sampled line truncations / deletions (all byte offsets of the last record are still covered); "
+        "token-level and byte-level damage on sampled record lines (first and last of each kind always included)",
+        "entry points: Molecule / Structure loads_all, loads, load_all(path), load(path), ml.load_all(path), ml.load(path), "
+        "load_all(open stream); ConformerEnsemble loads, load(path), ml.load(path, otype='ensemble')",
     ]
     rep.note(f"model {t_model:.0f}s, {len(cases) + len(good_cases)} real calls {t_real:.0f}s, {ntr} traces / {nd} damaged texts validated {t_trace:.0f}s; "
              f"outcomes {dict(outcomes)}; known-finding hits {nknown}; as-found model predicted {predicted}, real reader breaks {reproduced}")
@@ -527,23 +617,23 @@ def do_replay(path):
     if doc.get("kind") != "damaged-text":
         print(json.dumps(doc, indent=1)[:2000])
         return 1
-    fmt = doc["fmt"]
+    fmt, cls, via = doc["fmt"], doc.get("cls", "Molecule"), doc.get("via", "loads_all")
     dm = X.Damager(fmt, doc["orig_text"])
-    text, ops = dm.apply(doc["recipe"])
-    res = R.run_cases([("good", fmt, doc["orig_text"], True), ("dam", fmt, text, False)], workers=1)
+    data, ops = dm.apply(doc["recipe"])
+    res = R.run_cases([("good", fmt, doc["orig_text"], True, cls, R.PRIMARY[cls]), ("dam", fmt, data, False, cls, via)], workers=1)
     g, o = res["good"], res["dam"]
-    print(json.dumps({"source": doc["source"], "recipe": doc["recipe"], "class": doc.get("class"),
+    print(json.dumps({"source": doc["source"], "class": cls, "entry_point": via, "recipe": doc["recipe"], "damage": doc.get("class"),
                       "undamaged": g["out"], "outcome": {"out": o["out"], "exc": o.get("exc"), "mols": o["mols"]}}, indent=1))
     if g["out"] != "ret" or not g["mols"]:
         print("the undamaged text is no longer read: outside the domain of C10")
         return 0
-    src = {"fmt": fmt, "text": doc["orig_text"]}
-    verdict, _, _ = validate_all({"replay": [(("replay", "dam"), dam_event(ops, o))]}, {"replay": good_event(src, g)},
+    src = {"fmt": fmt, "text": doc["orig_text"], "cls": cls}
+    verdict, _, _ = validate_all({"replay": [(("replay", "dam"), dam_event(ops, o, via))]}, {"replay": good_event(src, g)},
                                  tag="c10rp", par=1)
     v = verdict[("replay", "dam")]
     print(json.dumps({"verdict": v}))
     if v != "ACCEPT":
-        wf = bool(wellformed_pass({"x": (fmt, text)})) if o["out"] == "ret" else False
+        wf = bool(wellformed_pass({"x": (fmt, data, cls)})) if o["out"] == "ret" and isinstance(data, str) else False
         kid = known_id(src, dm, doc["recipe"], ops, g, o, wf)
         print(json.dumps({"damaged_text_is_wellformed_and_read_as_the_model_reads_it": wf}))
         if kid:
